@@ -1,6 +1,38 @@
+// Package c36: peer connection limits under concurrent AcceptConnect / Connect / Close.
+//
+// The driver runs SCHEDULES on the real p2pserver/connect_controller.ConnectController:
+//
+//	level A  the real AcceptConnect / Connect run in goroutines; every goroutine is held at its
+//	         natural blocking points (reserve-filter lookup, dialer.Dial, start and end of the
+//	         handshake on a net.Pipe whose other end the driver plays with the real
+//	         handshake.HandshakeClient/Server) and released one at a time in schedule order, so
+//	         the run is deterministic;
+//	level B  the real mutex-protected sections called one by one through the add-only exporters
+//	         in connect_controller/verif_hooks.go, in the order the translator extracted from the
+//	         source, so every interleaving of single sections can be exercised.
+//
+// After every event the controller's whole bookkeeping (VerifSnapshot), the outcome of every
+// attempt and the driver's own count of established connections are recorded; the Coq model
+// (Corr/C36.v) re-executes the schedule and must agree at every step. The oracle checks the
+// limits directly on the implementation after every event.
 package c36
 
 import (
+	"encoding/json"
+	"errors"
+	"fmt"
+	"net"
+	"sort"
+	"strconv"
+	"strings"
+	"sync"
+	"time"
+
+	pcom "github.com/ontio/ontology/p2pserver/common"
+	cc "github.com/ontio/ontology/p2pserver/connect_controller"
+	"github.com/ontio/ontology/p2pserver/handshake"
+	"github.com/ontio/ontology/p2pserver/peer"
+
 	"verif/harness/gen"
 	"verif/harness/hx"
 )
@@ -10,6 +42,972 @@ func init() {
 	hx.Register("C36", Run)
 }
 
+// ---------- schedules ----------
+
+type Cfg struct {
+	MaxIn    uint   `json:"max_in"`
+	MaxOut   uint   `json:"max_out"`
+	MaxPerIP uint   `json:"max_per_ip"`
+	SelfID   uint64 `json:"self_id"`
+}
+
+type Event struct {
+	Kind     string `json:"kind"` // spawn | run | adv | close
+	Dir      string `json:"dir,omitempty"`
+	IP       int    `json:"ip,omitempty"`
+	Port     int    `json:"port,omitempty"`
+	Pid      uint64 `json:"pid,omitempty"`
+	LPort    uint16 `json:"lport,omitempty"`
+	Reserved bool   `json:"reserved,omitempty"`
+	DialOK   bool   `json:"dial_ok,omitempty"`
+	HsOK     bool   `json:"hs_ok,omitempty"`
+	Idx      int    `json:"idx"` // thread index (run/adv) or live-connection index (close)
+}
+
+type Sched struct {
+	Level  string  `json:"level"` // "A" | "B"
+	Name   string  `json:"name,omitempty"`
+	Cfg    Cfg     `json:"cfg"`
+	Events []Event `json:"events"`
+}
+
+func addrStr(ip, port int) string { return fmt.Sprintf("10.0.0.%d:%d", ip, port) }
+func ipStr(ip int) string         { return fmt.Sprintf("10.0.0.%d", ip) }
+
+// parseAddr maps "10.0.0.X:port" back to the model's (X, port).
+func parseAddr(s string) (int, int, bool) {
+	host, port, err := net.SplitHostPort(s)
+	if err != nil || !strings.HasPrefix(host, "10.0.0.") {
+		return 0, 0, false
+	}
+	x, e1 := strconv.Atoi(strings.TrimPrefix(host, "10.0.0."))
+	p, e2 := strconv.Atoi(port)
+	return x, p, e1 == nil && e2 == nil
+}
+
+// ---------- shared pieces ----------
+
+type recLogger struct {
+	mu    sync.Mutex
+	fatal bool
+}
+
+func (l *recLogger) Debug(a ...interface{})            {}
+func (l *recLogger) Info(a ...interface{})             {}
+func (l *recLogger) Warn(a ...interface{})             {}
+func (l *recLogger) Error(a ...interface{})            {}
+func (l *recLogger) Debugf(f string, a ...interface{}) {}
+func (l *recLogger) Infof(f string, a ...interface{})  {}
+func (l *recLogger) Warnf(f string, a ...interface{})  {}
+func (l *recLogger) Errorf(f string, a ...interface{}) {}
+func (l *recLogger) Fatal(a ...interface{})            { l.mu.Lock(); l.fatal = true; l.mu.Unlock() }
+func (l *recLogger) Fatalf(f string, a ...interface{}) { l.mu.Lock(); l.fatal = true; l.mu.Unlock() }
+func (l *recLogger) isFatal() bool                     { l.mu.Lock(); defer l.mu.Unlock(); return l.fatal }
+
+type fakeAddr string
+
+func (a fakeAddr) Network() string { return "tcp" }
+func (a fakeAddr) String() string  { return string(a) }
+
+const (
+	outPending = "Pending"
+	outDone    = "Done"
+)
+
+func errClass(err error) string {
+	if err == nil {
+		return outDone
+	}
+	if err == cc.ErrHandshakeSelf {
+		return "Failed EHandshakeSelf"
+	}
+	s := err.Error()
+	switch {
+	case strings.Contains(s, "not in reserved list"):
+		return "Failed ENotReserved"
+	case strings.Contains(s, "already in connection records"):
+		return "Failed EAlreadyBound"
+	case strings.Contains(s, "connecting with self address"):
+		return "Failed ESelfAddr"
+	case strings.Contains(s, "connections reach max limit"):
+		return "Failed EBoundFull"
+	case strings.Contains(s, "has reach max limit"):
+		return "Failed EIpFull"
+	case strings.Contains(s, "node exist in connecting list"):
+		return "Failed EConnecting"
+	case strings.Contains(s, "verif: dial refused"):
+		return "Failed EDial"
+	case strings.Contains(s, "same peer id from different addr"):
+		return "Failed EPeerIpMismatch"
+	}
+	return "Failed EHandshake"
+}
+
+type liveConn struct {
+	conn net.Conn
+	dir  string
+	ip   int
+}
+
+// runner is one controller under a schedule.
+type runner interface {
+	Spawn(e Event) error
+	Step(tid int) error // level A: advance to the next blocking point; level B: one section
+	Close(i int) error
+	Ctrl() *cc.ConnectController
+	Statuses() []string
+	Windows() (in, out int)
+	Live() []liveConn
+	Fatal() bool
+	Shutdown()
+}
+
+func newController(cfg Cfg, filter *gateFilter, dialer cc.Dialer, logger pcom.Logger) *cc.ConnectController {
+	opt := cc.NewConnCtrlOption().MaxInBound(cfg.MaxIn).MaxOutBound(cfg.MaxOut).MaxInBoundPerIp(cfg.MaxPerIP).WithDialer(dialer)
+	opt.ReservedPeers = filter
+	id := pcom.PseudoPeerIdFromUint64(cfg.SelfID)
+	info := peer.NewPeerInfo(id, 1, 1, true, 0, 20338, 0, "", "")
+	return cc.NewConnectController(info, &pcom.PeerKeyId{Id: id}, opt, logger)
+}
+
+func remoteInfo(pid uint64, lport uint16, addr string) *peer.PeerInfo {
+	return peer.NewPeerInfo(pcom.PseudoPeerIdFromUint64(pid), 1, 1, true, 0, lport, 0, "", addr)
+}
+
+// ---------- level B: sections through the hooks ----------
+
+type gateFilter struct {
+	mu  sync.Mutex
+	cur *threadA // level A: the goroutine being spawned
+	ans bool     // level B: the answer for the current call
+}
+
+func (f *gateFilter) Contains(addr string) bool {
+	f.mu.Lock()
+	th := f.cur
+	ans := f.ans
+	f.mu.Unlock()
+	if th == nil {
+		return ans
+	}
+	th.events <- "g0"
+	select {
+	case <-th.release:
+		return th.ev.Reserved
+	case <-th.abort:
+		return false
+	}
+}
+
+type threadB struct {
+	ev     Event
+	addr   string
+	prog   []progItem
+	pc     int
+	defers []string
+	out    string
+}
+
+type runnerB struct {
+	cfg     Cfg
+	prog    *Prog
+	ctrl    *cc.ConnectController
+	filter  *gateFilter
+	logger  *recLogger
+	threads []*threadB
+	live    []liveConn
+}
+
+type noDialer struct{}
+
+func (noDialer) Dial(string) (net.Conn, error) { return nil, errors.New("verif: dial refused") }
+
+func newRunnerB(cfg Cfg, prog *Prog) *runnerB {
+	r := &runnerB{cfg: cfg, prog: prog, filter: &gateFilter{}, logger: &recLogger{}}
+	r.ctrl = newController(cfg, r.filter, noDialer{}, r.logger)
+	return r
+}
+
+func (r *runnerB) Ctrl() *cc.ConnectController { return r.ctrl }
+func (r *runnerB) Live() []liveConn            { return r.live }
+func (r *runnerB) Fatal() bool                 { return r.logger.isFatal() }
+func (r *runnerB) Shutdown()                   {}
+
+func (r *runnerB) Spawn(e Event) error {
+	t := &threadB{ev: e, addr: addrStr(e.IP, e.Port), out: outPending}
+	if e.Dir == "in" {
+		t.prog = r.prog.Accept
+	} else {
+		t.prog = r.prog.Connect
+	}
+	r.threads = append(r.threads, t)
+	return nil
+}
+
+type stubConn struct {
+	net.Conn
+	raddr string
+}
+
+func (c *stubConn) RemoteAddr() net.Addr { return fakeAddr(c.raddr) }
+func (c *stubConn) Close() error         { return nil }
+
+func cmpGo(op string, a, b uint) bool {
+	switch op {
+	case ">=":
+		return a >= b
+	case ">":
+		return a > b
+	case "==":
+		return a == b
+	case "!=":
+		return a != b
+	case "<":
+		return a < b
+	case "<=":
+		return a <= b
+	}
+	return false
+}
+
+// execB runs one section of thread t on the real controller; returns the error class ("" = ok).
+func (r *runnerB) execB(t *threadB, op string) string {
+	idx := cc.INBOUND_INDEX
+	if t.ev.Dir == "out" {
+		idx = cc.OUTBOUND_INDEX
+	}
+	pinfo := remoteInfo(t.ev.Pid, t.ev.LPort, t.addr)
+	switch op {
+	case "OpReserved":
+		r.filter.mu.Lock()
+		r.filter.ans = t.ev.Reserved
+		r.filter.mu.Unlock()
+		if r.ctrl.VerifCheckReservedPeers(t.addr) != nil {
+			return "ENotReserved"
+		}
+	case "OpHasBound":
+		if r.ctrl.VerifHasBoundAddr(t.addr) {
+			return "EAlreadyBound"
+		}
+	case "OpOwn":
+		if r.ctrl.OwnAddress() == t.addr {
+			return "ESelfAddr"
+		}
+	case "OpFull":
+		if r.ctrl.VerifIsBoundFull(idx) {
+			return "EBoundFull"
+		}
+	case "OpIpCount":
+		if cmpGo(r.prog.CmpIP, r.ctrl.VerifInboundCountWithIp(ipStr(t.ev.IP)), r.cfg.MaxPerIP) {
+			return "EIpFull"
+		}
+	case "OpTryConnecting":
+		if !r.ctrl.VerifTryAddConnecting(t.addr) {
+			return "EConnecting"
+		}
+	case "OpDial":
+		if !t.ev.DialOK {
+			return "EDial"
+		}
+	case "OpHandshake":
+		if !t.ev.HsOK {
+			return "EHandshake"
+		}
+	case "OpSelfCheck":
+		if err := r.ctrl.VerifIsHandWithSelf(pinfo, t.addr); err != nil {
+			return "EHandshakeSelf"
+		}
+	case "OpGetPeer":
+		if err := r.ctrl.VerifCheckPeerIdAndIP(pinfo, t.addr); err != nil {
+			return "EPeerIpMismatch"
+		}
+	case "OpSave":
+		w := r.ctrl.VerifSavePeer(&stubConn{raddr: t.addr}, pinfo, idx)
+		r.live = append(r.live, liveConn{conn: w, dir: t.ev.Dir, ip: t.ev.IP})
+	case "OpRemoveConnecting":
+		r.ctrl.VerifRemoveConnecting(t.addr)
+	default:
+		panic("c36: unknown op " + op)
+	}
+	return ""
+}
+
+// Step mirrors Model.ConnCtrl.run_thread.
+func (r *runnerB) Step(tid int) error {
+	if tid < 0 || tid >= len(r.threads) {
+		return nil
+	}
+	t := r.threads[tid]
+	if t.out != outPending {
+		if len(t.defers) > 0 {
+			op := t.defers[0]
+			t.defers = t.defers[1:]
+			r.execB(t, op)
+		}
+		return nil
+	}
+	if t.pc >= len(t.prog) {
+		t.out = outDone
+		return nil
+	}
+	it := t.prog[t.pc]
+	t.pc++
+	if it.Defer {
+		t.defers = append([]string{it.Op}, t.defers...)
+	} else if e := r.execB(t, it.Op); e != "" {
+		t.out = "Failed " + e
+		return nil
+	}
+	if t.pc >= len(t.prog) {
+		t.out = outDone
+	}
+	return nil
+}
+
+func (r *runnerB) Close(i int) error {
+	if i < 0 || i >= len(r.live) {
+		return nil
+	}
+	k := r.live[i]
+	r.live = append(r.live[:i:i], r.live[i+1:]...)
+	return k.conn.Close()
+}
+
+func (r *runnerB) Statuses() []string {
+	var s []string
+	for _, t := range r.threads {
+		s = append(s, t.out)
+	}
+	return s
+}
+
+func isCheckOp(op string) bool { return op == "OpHasBound" || op == "OpFull" || op == "OpIpCount" }
+
+func (r *runnerB) Windows() (in, out int) {
+	for _, t := range r.threads {
+		if t.out != outPending {
+			continue
+		}
+		checked, saveAhead := false, false
+		for i, it := range t.prog {
+			if it.Defer {
+				continue
+			}
+			if i < t.pc && isCheckOp(it.Op) {
+				checked = true
+			}
+			if i >= t.pc && it.Op == "OpSave" {
+				saveAhead = true
+			}
+		}
+		if checked && saveAhead {
+			if t.ev.Dir == "in" {
+				in++
+			} else {
+				out++
+			}
+		}
+	}
+	return
+}
+
+// ---------- level A: the real AcceptConnect / Connect in goroutines ----------
+
+type resultA struct {
+	conn net.Conn
+	err  error
+}
+
+type threadA struct {
+	ev      Event
+	addr    string
+	events  chan string   // arrival at a blocking point: g0 (filter), gD (dial), g1/g2 (handshake start/end)
+	release chan struct{} // one token per release
+	abort   chan struct{}
+	done    chan resultA
+	at      string // where the goroutine is parked ("" = returned)
+	out     string
+	remote  net.Conn // the driver's end of the pipe
+	local   net.Conn
+	hsDone  chan struct{}
+}
+
+// gatedConn is the controller's end of the pipe: RemoteAddr is the scheduled address, and the two
+// SetDeadline calls that bracket the handshake are blocking points.
+type gatedConn struct {
+	net.Conn
+	th    *threadA
+	calls int
+}
+
+func (c *gatedConn) RemoteAddr() net.Addr { return fakeAddr(c.th.addr) }
+
+func (c *gatedConn) SetDeadline(t time.Time) error {
+	c.calls++
+	point := "g1"
+	if c.calls == 2 {
+		point = "g2"
+	} else if c.calls > 2 {
+		return nil
+	}
+	select {
+	case <-c.th.abort:
+		return nil
+	default:
+	}
+	c.th.events <- point
+	select {
+	case <-c.th.release:
+	case <-c.th.abort:
+	}
+	return nil
+}
+
+type runnerA struct {
+	cfg     Cfg
+	ctrl    *cc.ConnectController
+	filter  *gateFilter
+	logger  *recLogger
+	threads []*threadA
+	live    []liveConn
+	dialMu  sync.Mutex
+	dialCur *threadA
+}
+
+func (r *runnerA) Dial(addr string) (net.Conn, error) {
+	r.dialMu.Lock()
+	th := r.dialCur
+	r.dialMu.Unlock()
+	if th == nil {
+		return nil, errors.New("verif: dial refused")
+	}
+	th.events <- "gD"
+	select {
+	case <-th.release:
+	case <-th.abort:
+		return nil, errors.New("verif: dial refused")
+	}
+	if !th.ev.DialOK {
+		return nil, errors.New("verif: dial refused")
+	}
+	return &gatedConn{Conn: th.local, th: th}, nil
+}
+
+func newRunnerA(cfg Cfg) *runnerA {
+	r := &runnerA{cfg: cfg, filter: &gateFilter{}, logger: &recLogger{}}
+	r.ctrl = newController(cfg, r.filter, r, r.logger)
+	return r
+}
+
+func (r *runnerA) Ctrl() *cc.ConnectController { return r.ctrl }
+func (r *runnerA) Live() []liveConn            { return r.live }
+func (r *runnerA) Fatal() bool                 { return r.logger.isFatal() }
+
+const stepTimeout = 20 * time.Second
+
+// wait blocks until goroutine th parks again or returns.
+func (r *runnerA) wait(th *threadA) error {
+	select {
+	case p := <-th.events:
+		th.at = p
+		return nil
+	case res := <-th.done:
+		th.at = ""
+		th.out = errClass(res.err)
+		if res.err == nil {
+			r.live = append(r.live, liveConn{conn: res.conn, dir: th.ev.Dir, ip: th.ev.IP})
+		}
+		return nil
+	case <-time.After(stepTimeout):
+		return fmt.Errorf("goroutine of attempt %s stuck after %s", th.addr, th.at)
+	}
+}
+
+func (r *runnerA) Spawn(e Event) error {
+	a, b := net.Pipe()
+	th := &threadA{ev: e, addr: addrStr(e.IP, e.Port), events: make(chan string, 4), release: make(chan struct{}, 4),
+		abort: make(chan struct{}), done: make(chan resultA, 1), out: outPending, local: a, remote: b}
+	r.threads = append(r.threads, th)
+	r.filter.mu.Lock()
+	r.filter.cur = th
+	r.filter.mu.Unlock()
+	if e.Dir == "in" {
+		fc := &gatedConn{Conn: a, th: th}
+		go func() {
+			_, w, err := r.ctrl.AcceptConnect(fc)
+			th.done <- resultA{w, err}
+		}()
+	} else {
+		go func() {
+			_, w, err := r.ctrl.Connect(th.addr)
+			th.done <- resultA{w, err}
+		}()
+	}
+	return r.wait(th) // parks in the reserve filter before touching the controller's state
+}
+
+func (r *runnerA) Step(tid int) error {
+	if tid < 0 || tid >= len(r.threads) {
+		return nil
+	}
+	th := r.threads[tid]
+	switch th.at {
+	case "":
+		return nil
+	case "g0":
+		r.dialMu.Lock()
+		r.dialCur = th
+		r.dialMu.Unlock()
+		th.release <- struct{}{}
+		return r.wait(th)
+	case "gD":
+		th.release <- struct{}{}
+		return r.wait(th)
+	case "g1":
+		th.hsDone = make(chan struct{})
+		if th.ev.HsOK {
+			ri := remoteInfo(th.ev.Pid, th.ev.LPort, "")
+			key := &pcom.PeerKeyId{Id: ri.Id}
+			go func() {
+				if th.ev.Dir == "in" {
+					_, _ = handshake.HandshakeClient(ri, key, th.remote)
+				} else {
+					_, _ = handshake.HandshakeServer(ri, key, th.remote)
+				}
+				close(th.hsDone)
+			}()
+		} else {
+			_ = th.remote.Close()
+			close(th.hsDone)
+		}
+		th.release <- struct{}{}
+		if err := r.wait(th); err != nil {
+			return err
+		}
+		if th.at == "g2" && !th.ev.HsOK {
+			// the handshake failed: nothing to pause for, let the call return
+			th.release <- struct{}{}
+			return r.wait(th)
+		}
+		return nil
+	case "g2":
+		th.release <- struct{}{}
+		return r.wait(th)
+	}
+	return fmt.Errorf("unknown park point %q", th.at)
+}
+
+func (r *runnerA) Close(i int) error {
+	if i < 0 || i >= len(r.live) {
+		return nil
+	}
+	k := r.live[i]
+	r.live = append(r.live[:i:i], r.live[i+1:]...)
+	return k.conn.Close()
+}
+
+func (r *runnerA) Statuses() []string {
+	var s []string
+	for _, t := range r.threads {
+		s = append(s, t.out)
+	}
+	return s
+}
+
+// Windows: an attempt released past the reserve filter has run its checks; until it returns it is
+// between its checks and savePeer (or about to fail).
+func (r *runnerA) Windows() (in, out int) {
+	for _, t := range r.threads {
+		if t.at == "gD" || t.at == "g1" || t.at == "g2" {
+			if t.ev.Dir == "in" {
+				in++
+			} else {
+				out++
+			}
+		}
+	}
+	return
+}
+
+func (r *runnerA) Shutdown() {
+	for _, t := range r.threads {
+		if t.at == "" {
+			continue
+		}
+		close(t.abort)
+		_ = t.remote.Close()
+		_ = t.local.Close()
+		select {
+		case <-t.done:
+		case <-time.After(stepTimeout):
+		}
+	}
+	for _, k := range r.live {
+		_ = k.conn.Close()
+	}
+}
+
+// ---------- observation, oracle, Coq terms ----------
+
+type obsRec struct {
+	snap     cc.VerifState
+	fatal    bool
+	status   []string
+	winIn    int
+	winOut   int
+	liveIn   int
+	liveOut  int
+	livePerI map[int]int
+}
+
+func observe(r runner) obsRec {
+	o := obsRec{snap: r.Ctrl().VerifSnapshot(), fatal: r.Fatal(), status: r.Statuses(), livePerI: map[int]int{}}
+	o.winIn, o.winOut = r.Windows()
+	for _, k := range r.Live() {
+		if k.dir == "in" {
+			o.liveIn++
+			o.livePerI[k.ip]++
+		} else {
+			o.liveOut++
+		}
+	}
+	return o
+}
+
+func coqAddr(s string) string {
+	ip, port, ok := parseAddr(s)
+	if !ok {
+		return "(999999, 0)"
+	}
+	return fmt.Sprintf("(%d, %d)", ip, port)
+}
+
+func coqAddrList(l []string) string {
+	var s []string
+	for _, a := range l {
+		s = append(s, coqAddr(a))
+	}
+	return hx.CoqList(s)
+}
+
+func (o obsRec) coq() string {
+	var peers []string
+	for _, p := range o.snap.Peers {
+		peers = append(peers, fmt.Sprintf("(%d, (%d, %s))", p.Id, p.ConnectId, coqAddr(p.Addr)))
+	}
+	own := "None"
+	if o.snap.OwnAddr != "" {
+		own = "(Some " + coqAddr(o.snap.OwnAddr) + ")"
+	}
+	return fmt.Sprintf("(Obs %s %s %s %s %s %s %d %s %s %s %s %d %d)",
+		coqAddrList(o.snap.Inbounds), coqAddrList(o.snap.Outbounds), coqAddrList(o.snap.InboundListen),
+		coqAddrList(o.snap.Connecting), hx.CoqList(peers), own, o.snap.NextConnectId, hx.CoqBool(o.fatal),
+		hx.CoqList(o.status), hx.CoqNat(o.winIn), hx.CoqNat(o.winOut), o.liveIn, o.liveOut)
+}
+
+func coqDir(d string) string {
+	if d == "in" {
+		return "Inbound"
+	}
+	return "Outbound"
+}
+
+func (e Event) coq() string {
+	switch e.Kind {
+	case "spawn":
+		return fmt.Sprintf("(SE (Spawn %s (%d, %d) %d %d %s %s %s))", coqDir(e.Dir), e.IP, e.Port, e.Pid, e.LPort,
+			hx.CoqBool(e.Reserved), hx.CoqBool(e.DialOK), hx.CoqBool(e.HsOK))
+	case "run":
+		return fmt.Sprintf("(SE (Run %s))", hx.CoqNat(e.Idx))
+	case "adv":
+		return fmt.Sprintf("(SAdv %s)", hx.CoqNat(e.Idx))
+	case "close":
+		return fmt.Sprintf("(SE (Close %s))", hx.CoqNat(e.Idx))
+	}
+	panic("c36: bad event kind " + e.Kind)
+}
+
+func (c Cfg) coq() string {
+	return fmt.Sprintf("{| max_in := %d; max_out := %d; max_per_ip := %d; self_id := %d |}", c.MaxIn, c.MaxOut, c.MaxPerIP, c.SelfID)
+}
+
+const findingClass = "toctou:limit-check-then-savePeer"
+
+type verdict struct {
+	class, clause string
+	got, want     interface{}
+}
+
+// oracle checks the limits on the implementation after one event. maxWin* are the largest numbers
+// of same-direction attempts seen simultaneously inside their window so far in this schedule.
+func oracle(r runner, cfg Cfg, o obsRec, maxWinIn, maxWinOut int, ips []int) *verdict {
+	classify := func(clause string, count, limit uint, maxWin int, live bool) *verdict {
+		if count <= limit {
+			return nil
+		}
+		over := int(count - limit)
+		cls := "limit:" + clause
+		if maxWin >= 2 && (live || over <= maxWin-1) {
+			cls = findingClass
+		}
+		return &verdict{cls, clause, count, fmt.Sprintf("<= %d (at most %d overlapping attempts so far)", limit, maxWin)}
+	}
+	ctrl := r.Ctrl()
+	if got := ctrl.InboundsCount(); got != uint(len(o.snap.Inbounds)) {
+		return &verdict{"limit:InboundsCount-inconsistent", "InboundsCount equals the size of the inbound set", got, len(o.snap.Inbounds)}
+	}
+	if got := ctrl.OutboundsCount(); got != uint(len(o.snap.Outbounds)) {
+		return &verdict{"limit:OutboundsCount-inconsistent", "OutboundsCount equals the size of the outbound set", got, len(o.snap.Outbounds)}
+	}
+	if v := classify("inbound-recorded", ctrl.InboundsCount(), cfg.MaxIn, maxWinIn, false); v != nil {
+		return v
+	}
+	if v := classify("outbound-recorded", ctrl.OutboundsCount(), cfg.MaxOut, maxWinOut, false); v != nil {
+		return v
+	}
+	for _, ip := range ips {
+		if v := classify("per-ip-recorded", ctrl.VerifInboundCountWithIp(ipStr(ip)), cfg.MaxPerIP, maxWinIn, false); v != nil {
+			return v
+		}
+	}
+	if v := classify("inbound-established", uint(o.liveIn), cfg.MaxIn, maxWinIn, true); v != nil {
+		return v
+	}
+	if v := classify("outbound-established", uint(o.liveOut), cfg.MaxOut, maxWinOut, true); v != nil {
+		return v
+	}
+	for _, ip := range ips {
+		if v := classify("per-ip-established", uint(o.livePerI[ip]), cfg.MaxPerIP, maxWinIn, true); v != nil {
+			return v
+		}
+	}
+	return nil
+}
+
+// runSched executes one schedule on a fresh controller; emits the correspondence case and
+// reports the first oracle failure.
+func runSched(c *hx.Ctx, prog *Prog, s Sched, emit bool) {
+	var r runner
+	if s.Level == "A" {
+		r = newRunnerA(s.Cfg)
+	} else {
+		r = newRunnerB(s.Cfg, prog)
+	}
+	defer r.Shutdown()
+	ipset := map[int]bool{}
+	for _, e := range s.Events {
+		if e.Kind == "spawn" {
+			ipset[e.IP] = true
+		}
+	}
+	var ips []int
+	for ip := range ipset {
+		ips = append(ips, ip)
+	}
+	sort.Ints(ips)
+	var steps []string
+	maxWinIn, maxWinOut := 0, 0
+	failed := false
+	saves := 0
+	for i, e := range s.Events {
+		var err error
+		switch e.Kind {
+		case "spawn":
+			err = r.Spawn(e)
+		case "run", "adv":
+			if (e.Kind == "adv") != (s.Level == "A") {
+				err = fmt.Errorf("event kind %s not valid at level %s", e.Kind, s.Level)
+			} else {
+				err = r.Step(e.Idx)
+			}
+		case "close":
+			err = r.Close(e.Idx)
+		}
+		c.Eval()
+		c.Count("event:" + s.Level + ":" + e.Kind)
+		if err != nil {
+			c.Fail("driver:stuck", "the schedule can be executed on the implementation", s, err.Error(), nil)
+			return
+		}
+		o := observe(r)
+		if o.winIn > maxWinIn {
+			maxWinIn = o.winIn
+		}
+		if o.winOut > maxWinOut {
+			maxWinOut = o.winOut
+		}
+		saves = int(o.snap.NextConnectId)
+		steps = append(steps, "("+e.coq()+", "+o.coq()+")")
+		if !failed {
+			if v := oracle(r, s.Cfg, o, maxWinIn, maxWinOut, ips); v != nil {
+				failed = true
+				in := s
+				in.Events = s.Events[:i+1]
+				c.Fail(v.class, v.clause, in, v.got, v.want)
+				c.Count("oracle:" + v.class)
+			}
+		}
+	}
+	for _, st := range r.Statuses() {
+		c.Count("outcome:" + strings.TrimPrefix(st, "Failed "))
+	}
+	mw := maxWinIn
+	if maxWinOut > mw {
+		mw = maxWinOut
+	}
+	c.Count(fmt.Sprintf("max_overlap:%d", mw))
+	if len(s.Events) >= 6 && saves >= 1 {
+		b, _ := json.Marshal(s)
+		c.Nontrivial(string(b))
+	}
+	if emit {
+		c.Case(fmt.Sprintf("(CSched %s %s)", s.Cfg.coq(), hx.CoqList(steps)), s)
+	}
+	if s.Name != "" || c.Rng.Intn(40) == 0 {
+		c.Sample(map[string]interface{}{"schedule": s, "final_inbounds": r.Ctrl().InboundsCount(), "final_outbounds": r.Ctrl().OutboundsCount(),
+			"outcomes": r.Statuses(), "max_overlap": mw})
+	}
+}
+
+// ---------- generators ----------
+
+func spawnEv(dir string, ip, port int, pid uint64, lport uint16) Event {
+	return Event{Kind: "spawn", Dir: dir, IP: ip, Port: port, Pid: pid, LPort: lport, Reserved: true, DialOK: true, HsOK: true}
+}
+
+func rep(e Event, n int) []Event {
+	var l []Event
+	for i := 0; i < n; i++ {
+		l = append(l, e)
+	}
+	return l
+}
+
+func cat(ls ...[]Event) []Event {
+	var l []Event
+	for _, x := range ls {
+		l = append(l, x...)
+	}
+	return l
+}
+
+// witnesses are the schedules of Proofs/C36.v (w_sched_in, w_sched_ip, w_sched_out), at both levels.
+func witnesses() []Sched {
+	run := func(i int) Event { return Event{Kind: "run", Idx: i} }
+	adv := func(i int) Event { return Event{Kind: "adv", Idx: i} }
+	cIn := Cfg{1, 1, 1, 99}
+	cIP := Cfg{10, 10, 1, 99}
+	in2 := []Event{spawnEv("in", 1, 5001, 11, 20338), spawnEv("in", 2, 5002, 12, 20338)}
+	ip2 := []Event{spawnEv("in", 1, 5001, 11, 20338), spawnEv("in", 1, 5002, 12, 20339)}
+	out2 := []Event{spawnEv("out", 1, 20338, 11, 20338), spawnEv("out", 2, 20338, 12, 20338)}
+	bIn := cat(rep(run(0), 5), rep(run(1), 5), rep(run(0), 4), rep(run(1), 4))
+	bOut := cat(rep(run(0), 4), rep(run(1), 4), rep(run(0), 8), rep(run(1), 8))
+	// level A: checks of 0, checks of 1, then handshake+save of 0, handshake+save of 1
+	aIn := []Event{adv(0), adv(1), adv(0), adv(0), adv(1), adv(1)}
+	aOut := []Event{adv(0), adv(1), adv(0), adv(0), adv(0), adv(1), adv(1), adv(1)}
+	return []Sched{
+		{Level: "A", Name: "F13 inbound total, real AcceptConnect", Cfg: cIn, Events: cat(in2, aIn)},
+		{Level: "A", Name: "F13 inbound per IP, real AcceptConnect", Cfg: cIP, Events: cat(ip2, aIn)},
+		{Level: "A", Name: "F13 outbound, real Connect", Cfg: cIn, Events: cat(out2, aOut)},
+		{Level: "B", Name: "w_sched_in", Cfg: cIn, Events: cat(in2, bIn)},
+		{Level: "B", Name: "w_sched_ip", Cfg: cIP, Events: cat(ip2, bIn)},
+		{Level: "B", Name: "w_sched_out", Cfg: cIn, Events: cat(out2, bOut)},
+	}
+}
+
+func genCfg(c *hx.Ctx) Cfg {
+	per := []uint{0, 1, 1, 2, 2, 8}
+	return Cfg{MaxIn: uint(c.Rng.Intn(4)), MaxOut: uint(c.Rng.Intn(4)), MaxPerIP: per[c.Rng.Intn(len(per))], SelfID: 99}
+}
+
+func genSpawn(c *hx.Ctx) Event {
+	e := Event{Kind: "spawn", IP: 1 + c.Rng.Intn(3), Pid: uint64(11 + c.Rng.Intn(4)), LPort: uint16(20338 + c.Rng.Intn(2)),
+		Reserved: c.Rng.Intn(12) != 0, DialOK: c.Rng.Intn(10) != 0, HsOK: c.Rng.Intn(10) != 0}
+	if c.Rng.Intn(25) == 0 {
+		e.Pid = 99 // the node connects to itself
+	}
+	if c.Rng.Intn(5) < 3 {
+		e.Dir = "in"
+		e.Port = 5001 + c.Rng.Intn(4)
+	} else {
+		e.Dir = "out"
+		e.Port = 20338 + c.Rng.Intn(2)
+	}
+	return e
+}
+
+// genSched: sequential = every attempt runs to completion before the next starts (never in the
+// finding class); otherwise a random interleaving.
+func genSched(c *hx.Ctx, level string, sequential bool) Sched {
+	s := Sched{Level: level, Cfg: genCfg(c)}
+	stepKind := "run"
+	perThread := 14
+	if level == "A" {
+		stepKind = "adv"
+		perThread = 5
+	}
+	nThreads := 2 + c.Rng.Intn(5)
+	spawned, live := 0, 0
+	if sequential {
+		for spawned < nThreads {
+			s.Events = append(s.Events, genSpawn(c))
+			s.Events = append(s.Events, rep(Event{Kind: stepKind, Idx: spawned}, perThread)...)
+			spawned++
+			live++ // upper bound; closing a missing index is a no-op on both sides
+			if c.Rng.Intn(3) == 0 {
+				s.Events = append(s.Events, Event{Kind: "close", Idx: c.Rng.Intn(live)})
+			}
+		}
+		return s
+	}
+	budget := nThreads*perThread + 4
+	for i := 0; i < budget; i++ {
+		x := c.Rng.Intn(10)
+		switch {
+		case spawned == 0 || (x < 2 && spawned < nThreads):
+			s.Events = append(s.Events, genSpawn(c))
+			spawned++
+		case x == 9:
+			s.Events = append(s.Events, Event{Kind: "close", Idx: c.Rng.Intn(spawned)})
+		default:
+			// favour round-robin-ish progress so that attempts overlap and also finish
+			s.Events = append(s.Events, Event{Kind: stepKind, Idx: c.Rng.Intn(spawned)})
+		}
+	}
+	return s
+}
+
 func Run(c *hx.Ctx) {
 	c.CoqModule("Corr.C36")
+	prog, errs := ExtractProgram(c.Repo)
+	if len(errs) > 0 || prog == nil {
+		c.Note("translator: " + strings.Join(errs, "; "))
+		c.Fail("translator:connect_controller", "the section sequence of AcceptConnect/Connect has the expected shape", nil, strings.Join(errs, "; "), nil)
+		return
+	}
+	c.Note("locked sections: " + strings.Join(prog.Sections, ", "))
+	var in Sched
+	if c.ReplayInput(&in) {
+		runSched(c, prog, in, true)
+		return
+	}
+	for _, raw := range c.CorpusInputs() {
+		var s Sched
+		if json.Unmarshal(raw, &s) == nil && len(s.Events) > 0 {
+			runSched(c, prog, s, true)
+		}
+	}
+	// 1. the witnesses of the Coq refutation, replayed on the implementation on every run
+	for _, s := range witnesses() {
+		runSched(c, prog, s, true)
+	}
+	// 2. generated schedules
+	nA := c.N(120, 1500)
+	nB := c.N(600, 8000)
+	for i := 0; i < nA; i++ {
+		runSched(c, prog, genSched(c, "A", i%3 == 0), true)
+	}
+	for i := 0; i < nB; i++ {
+		runSched(c, prog, genSched(c, "B", i%3 == 0), true)
+	}
 }
